@@ -128,7 +128,7 @@ func (api *API) mapDecodeBasedOnType(ctx context.Context, mapVal any, value refl
 				return nil
 			}
 
-			return api.mapDecodeSlice(ctx, mapVal, sliceValue, sliceValueType, ts, opts)
+			return api.mapDecodeArray(ctx, mapVal, value.Elem(), sliceValueType, ts, opts)
 		}
 
 	case reflect.Struct:
@@ -155,7 +155,7 @@ func (api *API) mapDecodeBasedOnType(ctx context.Context, mapVal any, value refl
 			return nil
 		}
 
-		return api.mapDecodeSlice(ctx, mapVal, sliceValue, sliceValueType, ts, opts)
+		return api.mapDecodeArray(ctx, mapVal, value, sliceValueType, ts, opts)
 	case reflect.Interface:
 		return api.mapDecodeInterface(ctx, mapVal, value, valueType, ts, opts)
 	case reflect.String:
@@ -465,6 +465,22 @@ func (api *API) mapDecodeSlice(ctx context.Context, mapVal any, value reflect.Va
 			return ierrors.Wrapf(err, "can't deserialize '%s' type", value.Kind())
 		}
 	}
+
+	return nil
+}
+
+// mapDecodeArray decodes an array of objects like a slice (into an addressable, empty slice)
+// and copies the elements into the array afterwards.
+func (api *API) mapDecodeArray(ctx context.Context, mapVal any, arrayValue reflect.Value,
+	sliceValueType reflect.Type, ts TypeSettings, opts *options) error {
+	sliceValue := reflect.New(sliceValueType).Elem()
+	if err := api.mapDecodeSlice(ctx, mapVal, sliceValue, sliceValueType, ts, opts); err != nil {
+		return err
+	}
+	if sliceValue.Len() != arrayValue.Len() {
+		return ierrors.Errorf("can't map decode array %s: got %d elements", arrayValue.Type(), sliceValue.Len())
+	}
+	fillArrayFromSlice(arrayValue, sliceValue)
 
 	return nil
 }
